@@ -172,3 +172,63 @@ for sid, (prop, what, needs, flags, caught, note) in M3.items():
     }
     json.dump(meta, open(os.path.join(d, 'meta.json'), 'w'), indent=1)
 print(len(M3), 'round-3 meta files written')
+
+M4 = {
+ 'C01G': ('C01', 'checked_sub compares equal-length operands from the least significant digit', 'needs checked_sub with >= 3 digits on both sides, equal length and equal leading digit, low digits ordered the other way', '', ['C01'], ''),
+ 'C01H': ('C01', 'u64 - BigUint one-digit arm uses the machine subtraction', 'needs release build, u64/usize on the left and a larger one-digit BigUint on the right: wraps instead of panicking', '--release', ['C01'], ''),
+ 'C02G': ('C02', 'half-Karatsuba gives the first partial product a bounded accumulator window', 'needs half-Karatsuba entered with a non-zero accumulator (Karatsuba minus arm, |x1-x0| vs |y1-y0| at least 2:1) and an all-ones digit at the window top', '', ['C02'], ''),
+ 'C02H': ('C02', 'Toom-3 recomposition copies w0 instead of adding it', 'needs Toom-3 on a non-zero accumulator: shorter factor > 256 digits and the longer at least twice as long', '', ['C02'], ''),
+ 'C03G': ('C03', 'trait CheckedDiv for BigInt returns div_floor', 'needs the trait method, opposite signs, inexact division', '', ['C03'], ''),
+ 'C03H': ('C03', 'iN %= BigUint negates the remainder with plain -r', 'needs overflow checks (debug), scalar exactly iN::MIN, divisor in (|MIN|, uN::MAX]', '', ['C03'], ''),
+ 'C04G': ('C04', 'division remainder un-shifted in place without re-normalising', 'needs divisor >= 2 digits with a small leading digit (non-zero normalisation shift) and a remainder shorter than the divisor', '', ['C04'], ''),
+ 'C04H': ('C04', 'serde Deserialize for BigInt trusts the serialized sign', 'needs serde and a (+-1, zero magnitude) pair', '--features serde', ['C04', 'C17'], ''),
+ 'C05G': ('C05', 'BigUint::modinv truncates the Euclidean partial quotient to one digit', 'needs a partial quotient >= 2^64 after the first step', '', ['C05'], ''),
+ 'C05H': ('C05', 'montgomery() drops the overflow of c + c2 in the per-row carry', 'needs odd modulus >= 2 digits, incoming carry 1 and c2 = 2^64-1 (modulus top digit all ones)', '', ['C05'], ''),
+ 'C06G': ('C06', '{:X} fast path hands values fitting i64 to the primitive formatter', 'needs {:X} on a negative value within i64', '', ['C06'], ''),
+ 'C06H': ('C06', 'BigInt::parse_bytes strips the sign itself and delegates to BigUint::parse_bytes', 'needs parse_bytes on "-+<digits>"', '', ['C06'], ''),
+ 'C07G': ('C07', 'bitor_neg_pos loses a digit to Zip after the common digits', 'needs negative | positive, negative operand longer and its low digits all zero', '', ['C07'], ''),
+ 'C07H': ('C07', 'BigInt::set_bit no longer normalises after set_negative_bit', 'needs set_bit(i, true) on -(2^(64j)) with i < 64j', '', ['C07'], ''),
+ 'C08G': ('C08', 'TryFrom<&BigInt> quick bit-length rejection excludes exactly iN::MIN', 'needs TryFrom/TryInto with the value iN::MIN', '', ['C08'], ''),
+ 'C08H': ('C08', 'From<i128> for BigInt fast path tests bit 64 instead of bit 63', 'needs an i128 in [2^63, 2^64) or [-2^64, -2^63)', '', ['C08'], ''),
+ 'C09G': ('C09', 'U32Digits::next decides the upper half of the last digit by value instead of the flag', 'needs next_back() before the front reaches the last native digit', '', ['C09'], ''),
+ 'C09H': ('C09', 'to_bytes_be fills the tail with chunks_exact_mut instead of rchunks_exact_mut', 'needs a magnitude of >= 3 native digits with unequal lower digits, big-endian export', '', ['C09'], ''),
+ 'C10G': ('C10', 'same change as C03H (written independently)', 'see C03H', '', ['C10'], ''),
+ 'C10H': ('C10', 'BigInt >> n decides the rounding by comparing in the shift amount\'s own type', 'needs a negative value whose trailing-zero count does not fit the (narrow) shift-amount type: i8 >= 128, u8 >= 256, i16 >= 32768, u16 >= 65536', '', ['C10', 'C07'],
+          'MISSED by C10 at first (C07 caught it with an i8 amount and 256 trailing zeros): C10 now shifts, for every amount type, negative values whose trailing-zero count straddles that type\'s range'),
+ 'C11G': ('C11', 'nth_root power-of-two shortcut ignores divisibility of the exponent', 'needs x = 2^k with k >= 64, n >= 4 and n not dividing k', '', ['C11'], ''),
+ 'C11H': ('C11', 'cbrt scale-down threshold off by one: runaway recursion', 'needs std, 1024+3k bits with the top ~54 bits set', '', ['C11'], 'process death (SIGABRT) attributed via the BEGIN marker'),
+ 'C12G': ('C12', 'trailing-zero stripping with exp >>= tz + 1 overflows at the top bit of the exponent type', 'needs the exponent exactly the most significant bit of its type (128u8, 1<<31 u32 ...)', '', ['C12'], ''),
+ 'C12H': ('C12', 'dedicated squaring routine for pow drops a long carry', 'needs a 2..32-digit base whose doubled cross sum has an all-ones digit receiving a carry (structured digits only; random digits never)', '', ['C12'],
+          'MISSED at first: C12 had no multi-digit bases with carry-prone digit structure; it now raises 2..40-digit bases built from a 17-value special-digit pool to exponents 2..16'),
+ 'C13G': ('C13', 'lcm strips each operand\'s own low zero digits', 'needs operands with different numbers of whole zero digits and the one with fewer having the larger tz mod 64', '', ['C13'], ''),
+ 'C13H': ('C13', 'BigInt::gcd equal-operand shortcut returns the (negative) operand', 'needs two equal negative operands', '', ['C13'], ''),
+ 'C14G': ('C14', 'BigInt::modinv early return for self == 0 swallows the zero-modulus panic', 'needs BigInt 0.modinv(0)', '', ['C14'], ''),
+ 'C14H': ('C14', 'U32Digits::next_back stops resetting next_is_lo', 'needs next(), then next_back() to exhaustion, then len()/size_hint()/count(): overflow panic (debug) or usize::MAX (release)', '', ['C14'], ''),
+ 'C15G': ('C15', 'x += &y single-pass rewrite stores the carry with a raw write past a full buffer', 'needs shorter += longer by reference with a carry out of the top digit and an exactly full buffer; values stay correct', '', ['C15'], 'value oracles silent (correct); SIGSEGV under the guard allocator (end mode)'),
+ 'C15H': ('C15', 'div_rem_digit shortcut reaches the hardware div with hi == divisor', 'needs >= 2-digit dividend whose top digit equals a one-digit divisor > u32::MAX: #DE / SIGFPE in release', '', ['C15'], ''),
+ 'C16G': ('C16', 'ilog2 helper rewritten as trailing_zeros', 'needs no_std and an output conversion with an odd radix: divide by zero', '--no-default-features', ['C16'], ''),
+ 'C16H': ('C16', 'Knuth-D add-back moved inside debug_assert_eq!', 'needs release profile and operands reaching the add-back step', '--release', ['C16'], ''),
+ 'C17G': ('C17', 'deserialize_in_place override keeps stale high digits', 'needs Deserialize::deserialize_in_place into a value with more digits than the incoming sequence', '--features serde', ['C17'],
+          'MISSED at first: the driver never called deserialize_in_place; `dein` commands (longer / equal / shorter / zero places, both kinds) added'),
+ 'C17H': ('C17', 'Sign::deserialize truncates wide integers to i8 before validating', 'needs a format delivering i64/u64 and a sign value congruent to -1/0/1 mod 256', '--features serde', ['C17'],
+          'MISSED at first: the token deserializer only handed signs over as i8; it now has every carrier width and the workload includes values congruent to -1/0/1 mod 256 and mod 65536'),
+ 'C18G': ('C18', 'rejection loop refills the rejected candidate at native digit width', 'needs a rejected first candidate and bound.bits() % 64 != 0 on a 64-bit-digit target', '--features rand', ['C18'], ''),
+ 'C18H': ('C18', 'gen_biguint trims only one zero top digit of the sample', 'needs bit size > 64 and a stream whose top two native digits are zero', '--features rand', ['C18'], ''),
+ 'C19G': ('C19', 'BigInt::is_one matches on the lowest digit only', 'needs a positive multi-digit value whose lowest digit is 1', '', ['C19'], ''),
+ 'C19H': ('C19', 'from_biguint(NoSign, m) clears the magnitude only under debug_assertions', 'needs release and (NoSign, non-zero magnitude)', '--release', ['C19'], ''),
+ 'C20G': ('C20', 'crossover constants retuned to 320/320 in optimized builds only', 'needs release: 1024->2048 costs x3.97', 'RUSTFLAGS="--cfg num_bigint_verif" --release', ['C20'], ''),
+ 'C20H': ('C20', 'half-Karatsuba pre-split restricted to x.len() <= 256', 'needs n x 64n with n in 257..340: above the schoolbook count', 'RUSTFLAGS="--cfg num_bigint_verif"', ['C20'], ''),
+}
+for sid, (prop, what, needs, flags, caught, note) in M4.items():
+    d = os.path.join(V, 'seeded', sid)
+    if not os.path.isdir(d):
+        continue
+    meta = {
+        'id': sid, 'round': 4, 'breaks_property': prop, 'change': what, 'needs_to_manifest': needs,
+        'origin': 'fresh fourth-round sub-agent given the property text, its own scratch worktree and the list of earlier ideas to avoid (nothing from /verif)',
+        'confirmed_by_me': {'how': 'tools/confirm_seed.sh %s %s' % (sid, flags), 'result': 'clean_demo=PASS suite_with_patch=PASS demo_with_patch=FAIL'},
+        'demo_flags': flags, 'detected_by_quick_checks': caught, 'note': note,
+        'how_run_against_checks': 'tools/trymut.sh %s seeded/%s/patch.diff quick %s' % (sid, sid, ' '.join(caught)),
+    }
+    json.dump(meta, open(os.path.join(d, 'meta.json'), 'w'), indent=1)
+print(len(M4), 'round-4 meta files written')
